@@ -181,7 +181,7 @@ func runBatch(t *testing.T, rc *RunCtx, prop string) {
 		keys := pickKeys(rc, len(w.pop.Accts), n)
 		kind := "atts"
 		if prop == "C08" {
-			kind = []string{"atts", "atts", "multi", "att", "prop", "gen", "att-seq"}[ch.Pick(7, 0)]
+			kind = []string{"atts", "atts", "multi", "att", "prop", "gen", "att-seq", "conc"}[ch.Pick(8, 0)]
 		} else if ch.Pick(5, 0) == 4 {
 			kind = "prop"
 		}
@@ -203,6 +203,72 @@ func runBatch(t *testing.T, rc *RunCtx, prop string) {
 			}
 			desc = append(desc, fmt.Sprintf("att-seq procs=%d", procs))
 			rc.Stats.Inc("probe_single_attestations_sharing_slot_committee_head", 1)
+			nontrivial = true
+			continue
+		}
+		if kind == "conc" {
+			// Two or three batch requests over disjoint keys in flight at once, interleaved by the scheduler at
+			// every yield point, sometimes right after a batch that was refused before the rules ran (unknown
+			// account): each response must still be about its own request.
+			if ch.Pick(2, 0) == 1 {
+				uniq++
+				ro := &Op{Kind: "atts", Client: "client1", Entries: []Entry{attFor(rc, keys[0], model.W[keys[0]], uniq), AttEntry(-1, 1, 2, uniq+1)}}
+				uniq++
+				rr := w.exec(w.a, ro, false)
+				Monitor(rc, ledger, w.pop, ro, rr, r, false)
+				for j := range ro.Entries {
+					if rr.OK(j) {
+						model.W[keys[0]].Src, model.W[keys[0]].Tgt = int64(ro.Entries[j].Src), int64(ro.Entries[j].Tgt)
+					}
+				}
+				rc.Stats.Inc("probe_refused_batch_before_concurrent_batches", 1)
+			}
+			nreq := 2 + ch.Pick(2, 0)
+			all := pickKeys(rc, len(w.pop.Accts), nreq*4)
+			var ops []*Op
+			var res []*OpResult
+			for q := 0; q < nreq; q++ {
+				mine := all[q*4 : q*4+2+ch.Pick(3, 0)]
+				o := &Op{Kind: []string{"atts", "multi"}[ch.Pick(2, 0)], Client: "client1"}
+				for _, k := range mine {
+					uniq++
+					if o.Kind == "atts" {
+						o.Entries = append(o.Entries, attFor(rc, k, model.W[k], uniq))
+					} else {
+						e := GenEntry(k, MkDomain([4]byte{byte(5 + ch.Pick(6, 0)), 0, 0, 0}, ch.U64()), uniq)
+						e.ByKey = ch.Pick(3, 0) == 1
+						o.Entries = append(o.Entries, e)
+					}
+				}
+				ops = append(ops, o)
+				res = append(res, nil)
+			}
+			for q := range ops {
+				q := q
+				w.s.Spawn(fmt.Sprintf("conc%d", q), w.a, func(t *Task) { res[q] = ops[q].Exec(w.a) })
+			}
+			if out := w.s.Run(); out != "done" {
+				rc.Stats.Inc("outcome_"+out, 1)
+			}
+			for q, o := range ops {
+				if res[q] == nil {
+					continue
+				}
+				Monitor(rc, ledger, w.pop, o, res[q], r, false)
+				if len(res[q].States) != len(o.Entries) {
+					rc.Violate("C08", "response-count-differs", fmt.Sprintf("%s: %d responses for %d requests", o, len(res[q].States), len(o.Entries)), r)
+				}
+				if o.Kind == "atts" {
+					for j := range o.Entries {
+						if res[q].OK(j) {
+							k := o.Entries[j].Acct
+							model.W[k].Src, model.W[k].Tgt = int64(o.Entries[j].Src), int64(o.Entries[j].Tgt)
+						}
+					}
+				}
+			}
+			desc = append(desc, fmt.Sprintf("conc x%d procs=%d", nreq, procs))
+			rc.Stats.Inc("probe_concurrent_batch_requests", 1)
 			nontrivial = true
 			continue
 		}
